@@ -147,6 +147,6 @@ Theorem C15_go_render_partial cs it st text st' : go_write_item uc cfg cs it st 
      forallb safe_go (c15_item_docs_helpers_first it)).
 Proof.
   intros H. destruct (Decomp_partial _ _ _ (go_item_decomp _ _ _ _ _ H)) as (ps & Ht & Hd & Hc).
-  exists ps. rewrite c15_sites_docs in Hd. rewrite c15_sites_ok_false in Hc by discriminate. auto.
+  exists ps. rewrite c15_sites_text_line in Hd by discriminate. rewrite c15_sites_ok_false in Hc by discriminate. auto.
 Qed.
 End GODocs.
